@@ -112,6 +112,28 @@ def _wait_step(w: "Worker") -> bool:
     return w.stopped.is_set()
 
 
+def _blocked_in_tawazi(w: "Worker") -> str:
+    """Structural witness that a thread is stuck inside tawazi (not merely slow): its innermost Python frame is
+    the same tawazi source line in 6 samples spread over >= 1.2 s while the description lock is held."""
+    import sys
+
+    from tawazi.node import node as tnode
+
+    seen = None
+    for _ in range(6):
+        if w.stopped.is_set() or not tnode.exec_nodes_lock.locked():
+            return ""
+        fr = sys._current_frames().get(w.ident)
+        if fr is None or "/tawazi/" not in fr.f_code.co_filename:
+            return ""
+        here = f"{fr.f_code.co_filename}:{fr.f_lineno}:{fr.f_code.co_name}"
+        if seen is not None and here != seen:
+            return ""
+        seen = here
+        time.sleep(0.24)
+    return seen or ""
+
+
 def _script(case: Dict[str, Any], res: CaseResult) -> None:
     import tawazi
     from tawazi.consts import XNOutsideDAGCall
@@ -159,6 +181,10 @@ def _script(case: Dict[str, Any], res: CaseResult) -> None:
             reached = _wait_step(w)
             if others_paused and reached and nxt < len(w.ops) and w.ops[nxt]["op"] in ("call", "outside", "reconf"):
                 during_pause += 1
+            if others_paused and not reached and nxt < len(w.ops) and w.ops[nxt]["op"] in ("call", "outside", "reconf"):
+                wit = _blocked_in_tawazi(w)
+                if wit:
+                    res.viol("blocked-by-foreign-description", f"thread {w.idx} op {nxt} ({w.ops[nxt]['op']}) does not finish while another thread is paused inside a DAG description: it is blocked at {wit}")
         # drain: release everything until all threads are done
         end = time.monotonic() + 20.0
         while not all(w.done for w in workers) and time.monotonic() < end:
